@@ -44,6 +44,9 @@ func Encrypt(recips []age.Recipient, plain []byte, armored bool, segs []int) (ou
 	if err != nil {
 		return nil, err
 	}
+	// every Write goes through a scratch slice that is overwritten as soon as Write has returned: the caller owns its
+	// buffer again then, and a writer that kept a reference to it would encrypt garbage
+	w = &ownedWriter{w: w}
 	rest := plain
 	if segs == nil {
 		n, err := w.Write(rest)
@@ -235,3 +238,19 @@ func ErrText(err error) string {
 	}
 	return err.Error()
 }
+
+type ownedWriter struct {
+	w       io.WriteCloser
+	scratch []byte
+}
+
+func (o *ownedWriter) Write(p []byte) (int, error) {
+	o.scratch = append(o.scratch[:0], p...)
+	n, err := o.w.Write(o.scratch)
+	for i := range o.scratch {
+		o.scratch[i] = 0xA5
+	}
+	return n, err
+}
+
+func (o *ownedWriter) Close() error { return o.w.Close() }
